@@ -1,0 +1,151 @@
+//go:build verif
+
+package packet
+
+import "time"
+
+// Contracts over retained state: name merging (C17) and the ping waiter table (C19).
+
+func spec_pick(n, old string) string {
+	if n != "" {
+		return n
+	}
+	return old
+}
+
+// NameEntry.Merge: every attribute becomes the new value when one is given and stays otherwise
+// (so a known attribute is never erased); modified is reported exactly when one of the four
+// attributes changed; Type always follows the incoming entry.
+//
+//verif:props C17
+func verif_contract_NameEntry_Merge(e NameEntry, n NameEntry) (NameEntry, bool) {
+	vCanary()
+	r, mod := e.Merge(n)
+	vEnsures(r.Name == spec_pick(n.Name, e.Name) && r.Model == spec_pick(n.Model, e.Model))
+	vEnsures(r.OS == spec_pick(n.OS, e.OS) && r.Manufacturer == spec_pick(n.Manufacturer, e.Manufacturer))
+	vEnsures((e.Name == "" || r.Name != "") && (e.Model == "" || r.Model != "") && (e.OS == "" || r.OS != "") && (e.Manufacturer == "" || r.Manufacturer != ""))
+	vEnsures(mod == (r.Name != e.Name || r.Model != e.Model || r.OS != e.OS || r.Manufacturer != e.Manufacturer))
+	vEnsures(r.Type == n.Type)
+	if !mod {
+		vEnsures(r.Expire == e.Expire)
+	}
+	return r, mod
+}
+
+// Merge is idempotent: merging the same entry a second time reports no change and returns the same attributes.
+//
+//verif:props C17
+func verif_lemma_merge_idempotent(e NameEntry, n NameEntry) {
+	r, _ := e.Merge(n)
+	r2, mod2 := r.Merge(n)
+	vCanary()
+	vAssert(!mod2)
+	vAssert(r2.Name == r.Name && r2.Model == r.Model && r2.OS == r.OS && r2.Manufacturer == r.Manufacturer && r2.Type == r.Type && r2.Expire == r.Expire)
+}
+
+// ---------- ping waiter table (C19) ----------
+
+// spec_icmptable_ok: the waiter table exists and holds no nil entry, and every waiter has a wake-up channel.
+func spec_icmptable_ok() bool {
+	return icmpTable.table != nil && vMapAll(icmpTable.table, func(id uint16, e *icmpEntry) bool { return e != nil && e.wakeup != nil })
+}
+
+// echoNotify(id): the waiter registered under id (if any) is marked as answered and removed;
+// waiters under any other identifier are untouched; an identifier nobody waits for changes nothing.
+//
+//verif:props C19
+func verif_contract_echoNotify(id uint16, other uint16) {
+	vRequires(spec_icmptable_ok())
+	vCanary()
+	e0, in0 := icmpTable.table[id]
+	o0, oin0 := icmpTable.table[other]
+	var orecv0 bool
+	if oin0 {
+		orecv0 = o0.msgRecv
+	}
+	n0 := len(icmpTable.table)
+	vModifiesMems("packet.icmpEntry/", "packet.icmpTable", "map[uint16]*")
+	echoNotify(id)
+	_, in1 := icmpTable.table[id]
+	vEnsures(!in1)
+	if in0 {
+		vEnsures(e0.msgRecv && len(icmpTable.table) == n0-1)
+	} else {
+		vEnsures(len(icmpTable.table) == n0)
+	}
+	if other != id {
+		o1, oin1 := icmpTable.table[other]
+		vEnsures(oin1 == oin0 && o1 == o0)
+		if oin0 && o0 != e0 {
+			vEnsures(o1.msgRecv == orecv0)
+		}
+	}
+	vEnsures(spec_icmptable_ok())
+}
+
+// ping / Ping6: a fresh identifier per call (the counter advances), exactly one echo request
+// carrying that identifier when the addresses are of the right family, and no waiter entry is
+// left behind whichever way the call ends. Sequentially nothing can answer, so the result of
+// a completed wait is ErrTimeout; that a matching reply completes the ping is echoNotify's
+// contract plus the parse path (the hand-over between goroutines is not a sequential fact).
+//
+//verif:props C19
+//verif:timeout 60s
+func verif_contract_Session_ping(h *Session, srcAddr Addr, dstAddr Addr, timeout time.Duration) error {
+	vRequires(VerifSpecSessionOK(h) && spec_icmptable_ok() && len(dstAddr.MAC) == 6)
+	id0 := icmpTable.id
+	_, used := icmpTable.table[id0]
+	vRequires(!used) // the 16-bit identifier counter has not wrapped onto a pending waiter
+	vCanary()
+	n0 := len(icmpTable.table)
+	w0 := vWireCount()
+	vModifiesWire()
+	vModifiesMems("packet.icmpEntry/", "packet.icmpTable", "map[uint16]*")
+	err := h.ping(srcAddr, dstAddr, timeout)
+	vEnsures(icmpTable.id == id0+1)
+	_, in1 := icmpTable.table[id0]
+	vEnsures(!in1 && len(icmpTable.table) == n0)
+	if srcAddr.IP.Is4() && dstAddr.IP.Is4() {
+		if err == ErrTimeout {
+			// the wait was entered: exactly one echo request with this call's identifier went out
+			vEnsures(vWireCount() == w0+1)
+			w := vWireLast()
+			vEnsures(len(w) == 57 && w[34] == 8 && spec_be16(w, 38) == id0)
+		} else {
+			vEnsures(vWireCount() == w0 || vWireCount() == w0+1)
+		}
+	} else {
+		vEnsures(err == ErrInvalidIP && vWireCount() == w0)
+	}
+	vEnsures(err != nil)
+	vEnsures(spec_icmptable_ok())
+	return err
+}
+
+//verif:props C19
+//verif:timeout 60s
+func verif_contract_Session_Ping6(h *Session, srcAddr Addr, dstAddr Addr, timeout time.Duration) error {
+	vRequires(VerifSpecSessionOK(h) && spec_icmptable_ok() && len(dstAddr.MAC) == 6)
+	id0 := icmpTable.id
+	_, used := icmpTable.table[id0]
+	vRequires(!used)
+	vCanary()
+	n0 := len(icmpTable.table)
+	w0 := vWireCount()
+	vModifiesWire()
+	vModifiesMems("packet.icmpEntry/", "packet.icmpTable", "map[uint16]*")
+	err := h.Ping6(srcAddr, dstAddr, timeout)
+	vEnsures(icmpTable.id == id0+1)
+	_, in1 := icmpTable.table[id0]
+	vEnsures(!in1 && len(icmpTable.table) == n0)
+	if srcAddr.IP.Is6() && dstAddr.IP.Is6() {
+		vEnsures(vWireCount() == w0+1)
+		w := vWireLast()
+		vEnsures(len(w) == 77 && w[54] == 128 && spec_be16(w, 58) == id0)
+	} else {
+		vEnsures(err == ErrInvalidIP && vWireCount() == w0)
+	}
+	vEnsures(err != nil)
+	vEnsures(spec_icmptable_ok())
+	return err
+}
